@@ -185,8 +185,10 @@ ReadExp(pre, line, r, nm) ==
   IN IF line.ev = "Archive" /\ kd = line.kind
      THEN LET B == line.batch
               S == OrderSeq(kd, EligibleSet(kd, P.live, pre.sched, pre.now, line.expiry))
-              gone == {S[x].name : x \in 1..NDeleted(r.at, B)}
-              new == Cardinality({j \in 1..NSnaps(r.at, B) :
+              \* total: a tree that performs more writes than the model's run has
+              \* (r.at beyond TotalWrites) must mismatch, not make the evaluation fail
+              gone == {S[x].name : x \in 1..Min2(NDeleted(r.at, B), Len(S))}
+              new == Cardinality({j \in 1..Min2(NSnaps(r.at, B), NBatches(S, B)) :
                                     \E x \in BatchSet(S, B, j) : x.name = nm})
           IN old + new + (IF islive /\ nm \notin gone THEN 1 ELSE 0)
      ELSE old + (IF islive THEN 1 ELSE 0)
